@@ -53,6 +53,8 @@ enum Tm {
     DebugTuple(Vec<String>, Box<Tm>),
     Digest(Box<Tm>),
     NewCall(Box<Tm>),
+    /// `recv.m()` where `m` is another method of the same new-type (resolved by substitution after all bodies are read)
+    OwnCall(Box<Tm>, String),
     Unit,
     Opaque(String),
 }
@@ -85,6 +87,7 @@ impl Tm {
             Tm::DebugTuple(n, a) => format!("(.debugTuple {} {})", lean::strs(n), a.lean()),
             Tm::Digest(a) => u("digest", a),
             Tm::NewCall(a) => u("newCall", a),
+            Tm::OwnCall(a, n) => format!("(.opaque {})", lean::s(&format!("unresolved own method {n} on {}", a.lean()))),
             Tm::Unit => ".unit".into(),
             Tm::Opaque(t) => format!("(.opaque {})", lean::s(t)),
         }
@@ -270,6 +273,52 @@ impl Ctx {
                         None => Tm::Display(bx(self.tm(args[0]))),
                     },
                     ("fmt", 1) => Tm::Display(bx(recv)),
+                    // `r.map(|x| B)` on a Result / Option: B with x bound to the success value (`r?`), wrapped again
+                    ("map", 1) | ("and_then", 1) => match crate::mini::closure1(args[0]) {
+                        Some((x, body)) => {
+                            let mut cx = self.child();
+                            cx.lets.insert(x, Tm::Try(bx(recv)));
+                            let b = cx.tm(body);
+                            if name == "map" {
+                                Tm::Ok(bx(b))
+                            } else {
+                                b
+                            }
+                        }
+                        None => Tm::Opaque(canon(e)),
+                    },
+                    (_, 0) if self.kind(&recv) == Kind::Own => Tm::OwnCall(bx(recv), name),
+                    _ => Tm::Opaque(canon(e)),
+                }
+            }
+            // `match E { Ok(x) => B, Err(e) => Err(..) }`: B with x bound to the success value of E (the error is converted, never
+            // inspected by the models)
+            syn::Expr::Match(m) if m.arms.len() == 2 => {
+                let scrut = self.tm(&m.expr);
+                let (mut ok_arm, mut err_ok) = (None, false);
+                for a in &m.arms {
+                    if a.guard.is_some() {
+                        return Tm::Opaque(canon(e));
+                    }
+                    if let syn::Pat::TupleStruct(ts) = &a.pat {
+                        let ctor = ts.path.segments.last().map(|s| s.ident.to_string()).unwrap_or_default();
+                        if ts.elems.len() == 1 {
+                            if ctor == "Ok" {
+                                if let Some(b) = crate::mini::pat_binder(&ts.elems[0]) {
+                                    ok_arm = Some((b, &a.body));
+                                }
+                            } else if ctor == "Err" {
+                                err_ok = matches!(strip(&a.body), syn::Expr::Call(c) if canon(&c.func) == "Err") || matches!(strip(&a.body), syn::Expr::Return(_));
+                            }
+                        }
+                    }
+                }
+                match (ok_arm, err_ok) {
+                    (Some((b, body)), true) => {
+                        let mut cx = self.child();
+                        cx.lets.insert(b, Tm::Try(bx(scrut)));
+                        cx.tm(body)
+                    }
                     _ => Tm::Opaque(canon(e)),
                 }
             }
@@ -310,13 +359,53 @@ impl Ctx {
         }
     }
 
+    fn child(&self) -> Ctx {
+        Ctx { fields: self.fields.clone(), params: self.params.clone(), lets: self.lets.clone(), builders: self.builders.clone() }
+    }
+
+    /// `Self(a, b)` / `$name(a)` patterns: bind each named element to the projection of `of`
+    fn bind_tuple_pattern(&mut self, p: &syn::Pat, of: Tm) -> bool {
+        let ts = match p {
+            syn::Pat::TupleStruct(ts) => ts,
+            syn::Pat::Reference(r) => return self.bind_tuple_pattern(&r.pat, of),
+            _ => return false,
+        };
+        let ctor = ts.path.segments.last().map(|s| s.ident.to_string()).unwrap_or_default();
+        if ctor != "Self" && ctor != "__name" {
+            return false;
+        }
+        for (i, el) in ts.elems.iter().enumerate() {
+            match el {
+                syn::Pat::Wild(_) => {}
+                x => match crate::mini::pat_binder(x) {
+                    Some(b) => {
+                        self.lets.insert(b, Tm::Proj(Box::new(of.clone()), i));
+                    }
+                    None => return false,
+                },
+            }
+        }
+        true
+    }
+
     fn block(&self, stmts: &[syn::Stmt]) -> Tm {
-        let mut cx = Ctx { fields: self.fields.clone(), params: self.params.clone(), lets: self.lets.clone(), builders: self.builders.clone() };
+        let mut cx = self.child();
         let mut result = Tm::Unit;
         for (i, s) in stmts.iter().enumerate() {
             let last = i + 1 == stmts.len();
             match s {
                 syn::Stmt::Local(l) => {
+                    // `let Self(inner) = self;`
+                    if matches!(&l.pat, syn::Pat::TupleStruct(_) | syn::Pat::Reference(_)) {
+                        let of = match &l.init {
+                            Some(i) if i.diverge.is_none() => cx.tm(&i.expr),
+                            _ => return Tm::Opaque(canon(s)),
+                        };
+                        if cx.bind_tuple_pattern(&l.pat, of) {
+                            continue;
+                        }
+                        return Tm::Opaque(canon(s));
+                    }
                     let name = match &l.pat {
                         syn::Pat::Ident(p) => p.ident.to_string(),
                         syn::Pat::Type(t) => match &*t.pat {
@@ -376,6 +465,53 @@ impl Ctx {
     }
 }
 
+fn subst_self(t: &Tm, with: &Tm) -> Tm {
+    map_tm(t, &|x| if matches!(x, Tm::SelfVal) { Some(with.clone()) } else { None })
+}
+
+fn map_tm(t: &Tm, f: &dyn Fn(&Tm) -> Option<Tm>) -> Tm {
+    if let Some(r) = f(t) {
+        return r;
+    }
+    let b = |x: &Tm| Box::new(map_tm(x, f));
+    match t {
+        Tm::Proj(a, i) => Tm::Proj(b(a), *i),
+        Tm::Mk1(a) => Tm::Mk1(b(a)),
+        Tm::Mk2(a, c) => Tm::Mk2(b(a), b(c)),
+        Tm::UrlParse(a) => Tm::UrlParse(b(a)),
+        Tm::UrlText(a) => Tm::UrlText(b(a)),
+        Tm::Try(a) => Tm::Try(b(a)),
+        Tm::Ok(a) => Tm::Ok(b(a)),
+        Tm::Some(a) => Tm::Some(b(a)),
+        Tm::MapErr(a) => Tm::MapErr(b(a)),
+        Tm::Eq(a, c) => Tm::Eq(b(a), b(c)),
+        Tm::Not(a) => Tm::Not(b(a)),
+        Tm::Cmp(a, c) => Tm::Cmp(b(a), b(c)),
+        Tm::PCmp(a, c) => Tm::PCmp(b(a), b(c)),
+        Tm::HashInto(a) => Tm::HashInto(b(a)),
+        Tm::SerStr(a) => Tm::SerStr(b(a)),
+        Tm::Display(a) => Tm::Display(b(a)),
+        Tm::DebugTuple(n, a) => Tm::DebugTuple(n.clone(), b(a)),
+        Tm::Digest(a) => Tm::Digest(b(a)),
+        Tm::NewCall(a) => Tm::NewCall(b(a)),
+        Tm::OwnCall(a, n) => Tm::OwnCall(b(a), n.clone()),
+        x => x.clone(),
+    }
+}
+
+fn resolve_own(t: &Tm, table: &[(String, Tm)], depth: usize) -> Tm {
+    map_tm(t, &|x| match x {
+        Tm::OwnCall(recv, name) if depth < 4 => {
+            let recv = resolve_own(recv, table, depth + 1);
+            match table.iter().find(|(n, _)| n == name) {
+                Some((_, body)) => Some(resolve_own(&subst_self(body, &recv), table, depth + 1)),
+                None => Some(Tm::Opaque(format!("call of an unknown own method `{name}`"))),
+            }
+        }
+        _ => None,
+    })
+}
+
 struct Method {
     /// "new", "Deref::deref", "Deserialize::visit_str", ..
     name: String,
@@ -398,17 +534,29 @@ fn ctx_for(fields: &[Kind], sig: &syn::Signature) -> (Ctx, Vec<String>) {
     let mut params = BTreeMap::new();
     let mut shown = Vec::new();
     let mut i = 0;
+    let mut patterns: Vec<(syn::Pat, usize)> = Vec::new();
     for a in &sig.inputs {
         if let syn::FnArg::Typed(t) = a {
-            if let syn::Pat::Ident(p) = &*t.pat {
-                let k = type_kind(&t.ty);
-                params.insert(p.ident.to_string(), (i, k));
-                shown.push(format!("{:?}", k).to_lowercase());
-                i += 1;
+            let k = type_kind(&t.ty);
+            match &*t.pat {
+                syn::Pat::Ident(p) => {
+                    params.insert(p.ident.to_string(), (i, k));
+                }
+                // `fn from($name(inner): $name)`: a destructured parameter
+                other => patterns.push((other.clone(), i)),
             }
+            shown.push(format!("{:?}", k).to_lowercase());
+            i += 1;
         }
     }
-    (Ctx { fields: fields.to_vec(), params, lets: BTreeMap::new(), builders: BTreeMap::new() }, shown)
+    let mut cx = Ctx { fields: fields.to_vec(), params, lets: BTreeMap::new(), builders: BTreeMap::new() };
+    for (p, ix) in patterns {
+        cx.params.insert(format!("__pattern{ix}"), (ix, Kind::Own));
+        if !cx.bind_tuple_pattern(&p, Tm::Param(ix)) {
+            cx.lets.insert(format!("__unreadable_pattern{ix}"), Tm::Opaque(canon(&p)));
+        }
+    }
+    (cx, shown)
 }
 
 fn bodies_of(file: &str, name: &str, f: &syn::File) -> R<MacroBodies> {
@@ -488,6 +636,11 @@ fn bodies_of(file: &str, name: &str, f: &syn::File) -> R<MacroBodies> {
         }
     }
     let _ = last_segment;
+    // own-method calls: substitute the callee's body (parameterless inherent methods only)
+    let table: Vec<(String, Tm)> = out.methods.iter().filter(|m| m.params.is_empty() && !m.name.contains("::")).map(|m| (m.name.clone(), m.body.clone())).collect();
+    for m in out.methods.iter_mut().chain(out.visitors.iter_mut()) {
+        m.body = resolve_own(&m.body, &table, 0);
+    }
     Ok(out)
 }
 
